@@ -690,3 +690,11 @@ def run(ctx):
         for s in range(nsh):
             gtasks.append((ctx.seed, s, int(n * mult) if target != "cpp" else max(8, n // 3), ctx.known, target))
     ctx.pmap(_gen_shard, gtasks)
+    from harness import fuzz
+
+    fuzz.campaign(ctx, "C05", ["python", "numpy"], runs=500 if ctx.quick else 30000, workers=8 if ctx.quick else 16)
+
+
+# ---- coverage-guided tier (harness/fuzz.py): python and numpy targets (a g++ run per case is too slow for libFuzzer)
+def fuzz_strategy(variant):
+    return gen_cases(variant)
